@@ -782,6 +782,12 @@ func scanFields(buf []byte, i int) (int, []byte, error) {
 		if buf[i] == '"' && equals > commas {
 			quoted = !quoted
 			i++
+			// A string value ends at its closing quote: only the next field or the end of the
+			// field section may follow. Text after the quote used to be taken as part of the
+			// value, which then did not survive being written out and parsed again.
+			if !quoted && i < len(buf) && buf[i] != ',' && buf[i] != ' ' && buf[i] != '"' {
+				return i, buf[start:i], fmt.Errorf("invalid field format")
+			}
 			continue
 		}
 
